@@ -12,7 +12,9 @@ import (
 	"fmt"
 	"math/rand"
 	"os"
+	"reflect"
 	"runtime"
+	"sort"
 	"strconv"
 	"strings"
 	"sync"
@@ -30,20 +32,22 @@ type Item struct {
 	Kind  string `json:"k"`           // w sw t tp mh mm ml sh sm sl hk hx (hook on the event of a dependency)
 	Delay int    `json:"d"`           // ms between observing the cancellation and returning
 	Ret   string `json:"r,omitempty"` // "" (nil) | err | panic | ctxerr | cancelwrap (wrapped context.Canceled) | restartnow (ErrRestartNow) | restartwrap (wrapped ErrRestartNow) | restart (service worker: one ErrRestartNow before anything else)
-	At    string `json:"a,omitempty"` // "" = started by the work op and awaited | start = from inside the start routine | race = not awaited
+	At    string `json:"a,omitempty"` // "" = started by the work op and awaited | start = from inside the start routine (every invocation) | race = not awaited | prep = from inside the prep routine | reg = right after registration, before modules.Start
 	Cycle int    `json:"c,omitempty"` // online phase in which it is started
 	Self  bool   `json:"s,omitempty"` // finishes on its own Delay ms after it began (does not wait for the cancellation)
 }
 
 // Mod is one module.
 type Mod struct {
-	Deps      []int    `json:"deps"`
-	StartFn   string   `json:"start,omitempty"` // "" (nil function) | ok
-	StopFn    string   `json:"stop,omitempty"`  // "" (nil function) | ok | err | panic
-	StopDelay int      `json:"sd,omitempty"`    // ms the stop routine takes
-	Enabled   bool     `json:"en,omitempty"`    // enabled at start (module management only)
-	Items     []Item   `json:"items,omitempty"`
-	Late      []string `json:"late,omitempty"` // attempted once the module is stopped: w mh mm sh t ev
+	Deps       []int    `json:"deps"`
+	StartFn    string   `json:"start,omitempty"` // "" (nil function) | ok | err | panic (the first StartFails invocations fail that way, later ones succeed)
+	StartFails int      `json:"sf,omitempty"`    // number of failing invocations of the start routine (-1: every one)
+	PrepFn     string   `json:"prep,omitempty"`  // "" (nil function) | ok
+	StopFn     string   `json:"stop,omitempty"`  // "" (nil function) | ok | err | panic
+	StopDelay  int      `json:"sd,omitempty"`    // ms the stop routine takes
+	Enabled    bool     `json:"en,omitempty"`    // enabled at start (module management only)
+	Items      []Item   `json:"items,omitempty"`
+	Late       []string `json:"late,omitempty"` // attempted once the module is stopped: w mh mm sh t ev
 }
 
 // Hold forces an interleaving: the Nth arrival at hook point Point of module Mod is held (before the
@@ -65,7 +69,7 @@ type Scn struct {
 	Mods        []Mod    `json:"mods"`
 	Mgmt        bool     `json:"mgmt,omitempty"`
 	NoNotify    bool     `json:"nonotify,omitempty"` // module management without a change-notification function
-	Script      []string `json:"script"`             // start | work <cycle> | disable <i> | enable <i> | manage | late | shutdown | sleep <ms>
+	Script      []string `json:"script"`             // start | work <cycle> | disable <i> | enable <i> | manage | late | shutdown | sleep <ms> | obs (every running piece of work looks at its context)
 	StopTimeout int      `json:"sto"`                // ms
 	YieldPm     int      `json:"yp,omitempty"`       // per-mille probability of a random delay at a hook point
 	YieldMaxUs  int      `json:"yu,omitempty"`
@@ -257,6 +261,8 @@ func sink(point string, args ...any) {
 				atomic.StoreInt32(&stopped[idx], 1)
 			case "startBegin":
 				atomic.StoreInt32(&stopped[idx], 0)
+				// we are inside start(), in its goroutine, under the module lock: m.Ctx is the context just installed
+				regGen(idx, mods[idx].Ctx, false)
 			}
 		}
 		atomic.StoreInt64(&holder, 0)
@@ -288,20 +294,164 @@ var readOps = map[string]bool{"cFast": true, "cFlag": true, "cCtrl": true, "cW":
 
 // ---- scenario execution ---------------------------------------------------------------------------
 
-type itemState struct {
+// launch is one start of an item (the start routine launches its items on every invocation, so one item can have
+// several launches alive at the same time); a service worker's re-runs belong to the same launch.
+type launch struct {
+	id       string // i<j> for the first launch of item j, i<j>~<n> for the n-th
 	entered  chan struct{}
 	exited   chan struct{}
 	once     sync.Once
 	exitOnce sync.Once
 	runs     int32
-	ctx      atomic.Value // context.Context handed to the item
 }
+
+type itemState struct {
+	mu       sync.Mutex
+	launches []*launch
+}
+
+func (st *itemState) newLaunch(j int) *launch {
+	st.mu.Lock()
+	defer st.mu.Unlock()
+	id := fmt.Sprintf("i%d", j)
+	if n := len(st.launches); n > 0 {
+		id = fmt.Sprintf("i%d~%d", j, n+1)
+	}
+	l := &launch{id: id, entered: make(chan struct{}), exited: make(chan struct{})}
+	st.launches = append(st.launches, l)
+	return l
+}
+
+func (st *itemState) all() []*launch {
+	st.mu.Lock()
+	defer st.mu.Unlock()
+	return append([]*launch{}, st.launches...)
+}
+
+// execRec: a piece of work that is executing right now and the context it was handed (for a signalled microtask, which
+// is handed none: the channel Module.Stopping() gave it when it was signalled).
+type execRec struct {
+	mod  int
+	id   string
+	done <-chan struct{}
+	gen  string // number of the module context it is (derived from), "?" = not a context this module was seen installing
+}
+
+type genKey struct{ mod, gen int }
 
 var (
 	mods    []*modules.Module
 	istates [][]*itemState
 	stopped []int32 // per module: 1 = reported offline by its stopper and not restarted since
+
+	runMu   sync.Mutex
+	running = map[*execRec]bool{}
+
+	genMu     sync.Mutex
+	genByDone = map[<-chan struct{}]genKey{} // Done channel of every context a module was seen installing
+	curGen    []int
 )
+
+// regGen records ctx as the next context of module mod (gen 0: made by Register; then one per start()).
+func regGen(mod int, ctx context.Context, first bool) {
+	genMu.Lock()
+	if !first {
+		curGen[mod]++
+	}
+	genByDone[ctx.Done()] = genKey{mod, curGen[mod]}
+	genMu.Unlock()
+}
+
+// parentOf returns the context ctx was derived from (context.WithCancel / WithValue / WithDeadline wrap it in a struct
+// with an embedded field Context).
+func parentOf(ctx context.Context) context.Context {
+	v := reflect.ValueOf(ctx)
+	if v.Kind() == reflect.Ptr {
+		v = v.Elem()
+	}
+	if v.Kind() != reflect.Struct {
+		return nil
+	}
+	f := v.FieldByName("Context")
+	if !f.IsValid() || !f.CanInterface() {
+		return nil
+	}
+	p, _ := f.Interface().(context.Context)
+	return p
+}
+
+// genOfDone / genOf: which context of module mod is this (or is this derived from)?
+func genOfDone(mod int, done <-chan struct{}) string {
+	genMu.Lock()
+	defer genMu.Unlock()
+	if k, ok := genByDone[done]; ok && k.mod == mod {
+		return strconv.Itoa(k.gen)
+	}
+	return "?"
+}
+
+func genOf(mod int, ctx context.Context) string {
+	for c, n := ctx, 0; c != nil && n < 8; c, n = parentOf(c), n+1 {
+		if d := c.Done(); d != nil {
+			if g := genOfDone(mod, d); g != "?" {
+				return g
+			}
+		}
+	}
+	return "?"
+}
+
+func register(mod int, id string, done <-chan struct{}, gen string) *execRec {
+	r := &execRec{mod: mod, id: id, done: done, gen: gen}
+	runMu.Lock()
+	running[r] = true
+	runMu.Unlock()
+	return r
+}
+
+func unregister(r *execRec) {
+	runMu.Lock()
+	delete(running, r)
+	runMu.Unlock()
+}
+
+// observeContexts: every piece of work of module mod (mod < 0: of every module) that is executing right now looks at
+// the context it holds; one bracketed `ctxObs` event each (the cancellation state is read under the bracket lock).
+func observeContexts(mod int, at string) {
+	runMu.Lock()
+	var recs []*execRec
+	for r := range running {
+		if mod < 0 || r.mod == mod {
+			recs = append(recs, r)
+		}
+	}
+	runMu.Unlock()
+	sort.Slice(recs, func(a, b int) bool {
+		if recs[a].mod != recs[b].mod {
+			return recs[a].mod < recs[b].mod
+		}
+		return recs[a].id < recs[b].id
+	})
+	g := goid()
+	for _, r := range recs {
+		gmu.Lock()
+		c := 0
+		select {
+		case <-r.done:
+			c = 1
+		default:
+		}
+		cur := "x"
+		if r.gen != "?" {
+			genMu.Lock()
+			cur = strconv.Itoa(boolInt(r.gen == strconv.Itoa(curGen[r.mod])))
+			genMu.Unlock()
+		}
+		logLocked(g, fmt.Sprintf("e %d ctxObs %d %s gen=%s at=%s cur=%s", r.mod, c, r.id, r.gen, at, cur))
+		gmu.Unlock()
+		bump("ctxObs", strconv.Itoa(r.mod))
+	}
+}
 
 func modName(i int) string { return fmt.Sprintf("m%d", i) }
 
@@ -312,12 +462,13 @@ func boolInt(b bool) int {
 	return 0
 }
 
-// body is the managed function of item j of module i.
-func body(i, j int, ctx context.Context) error {
+// body is the managed function of item j of module i (launch st).
+func body(i, j int, st *launch, ctx context.Context) error {
 	it := scn.Mods[i].Items[j]
-	st := istates[i][j]
-	mev(i, "workEnter", fmt.Sprintf("i%d", j), ctx)
-	st.ctx.Store(&ctx)
+	gen := genOf(i, ctx)
+	mev(i, "workEnter", fmt.Sprintf("%s gen=%s", st.id, gen), ctx)
+	rec := register(i, st.id, ctx.Done(), gen)
+	defer unregister(rec)
 	st.once.Do(func() { close(st.entered) })
 	defer st.exitOnce.Do(func() { close(st.exited) })
 	runs := atomic.AddInt32(&st.runs, 1)
@@ -331,9 +482,9 @@ func body(i, j int, ctx context.Context) error {
 	if delay > 0 {
 		time.Sleep(time.Duration(delay) * time.Millisecond)
 	}
-	hev("h workExit %d i%d status=%d", i, j, mods[i].Status())
+	hev("h workExit %d %s status=%d", i, st.id, mods[i].Status())
 	if it.Kind == "sw" {
-		mev(i, "swReturn", fmt.Sprintf("i%d", j))
+		mev(i, "swReturn", st.id)
 	}
 	if runs > 4000 {
 		return nil
@@ -355,11 +506,12 @@ func body(i, j int, ctx context.Context) error {
 	return nil
 }
 
-func startItem(i, j int) {
+func startItem(i, j int) *launch {
 	it := scn.Mods[i].Items[j]
 	m := mods[i]
-	name := fmt.Sprintf("i%d", j)
-	fn := func(ctx context.Context) error { return body(i, j, ctx) }
+	st := istates[i][j].newLaunch(j)
+	name := st.id
+	fn := func(ctx context.Context) error { return body(i, j, st, ctx) }
 	switch it.Kind {
 	case "w":
 		m.StartWorker(name, fn)
@@ -367,17 +519,17 @@ func startItem(i, j int) {
 		first := int32(1)
 		m.StartServiceWorker(name, 5*time.Millisecond, func(ctx context.Context) error {
 			if it.Ret == "restart" && atomic.CompareAndSwapInt32(&first, 1, 0) {
-				mev(i, "workEnter", fmt.Sprintf("i%d", j), ctx)
-				hev("h workExit %d i%d status=%d restart", i, j, mods[i].Status())
-				mev(i, "swReturn", fmt.Sprintf("i%d", j))
+				mev(i, "workEnter", fmt.Sprintf("%s gen=%s", st.id, genOf(i, ctx)), ctx)
+				hev("h workExit %d %s status=%d restart", i, st.id, mods[i].Status())
+				mev(i, "swReturn", st.id)
 				return modules.ErrRestartNow
 			}
-			return body(i, j, ctx)
+			return body(i, j, st, ctx)
 		})
 	case "t":
-		m.NewTask(name, func(ctx context.Context, _ *modules.Task) error { return body(i, j, ctx) }).Queue()
+		m.NewTask(name, func(ctx context.Context, _ *modules.Task) error { return body(i, j, st, ctx) }).Queue()
 	case "tp":
-		m.NewTask(name, func(ctx context.Context, _ *modules.Task) error { return body(i, j, ctx) }).StartASAP()
+		m.NewTask(name, func(ctx context.Context, _ *modules.Task) error { return body(i, j, st, ctx) }).StartASAP()
 	case "mh":
 		m.StartHighPriorityMicroTask(name, fn)
 	case "mm":
@@ -395,31 +547,65 @@ func startItem(i, j int) {
 			default:
 				done = m.SignalLowPriorityMicroTask(0)
 			}
-			st := istates[i][j]
-			hev("h sigEnter %d i%d", i, j)
+			// a signalled microtask is handed no context; what tells it to stop is the module's Stopping() channel
+			stopCh := m.Stopping()
+			hev("h sigEnter %d %s", i, st.id)
+			rec := register(i, st.id, stopCh, genOfDone(i, stopCh))
 			st.once.Do(func() { close(st.entered) })
 			if !it.Self {
-				<-m.Stopping()
+				<-stopCh
 			}
 			if it.Delay > 0 {
 				time.Sleep(time.Duration(it.Delay) * time.Millisecond)
 			}
-			hev("h workExit %d i%d status=%d", i, j, m.Status())
+			hev("h workExit %d %s status=%d", i, st.id, m.Status())
+			unregister(rec)
 			done()
 			done() // safe to call twice
 			st.exitOnce.Do(func() { close(st.exited) })
 		}()
 	case "hk":
-		m.TriggerEvent("evt", j)
+		m.TriggerEvent("evt", hookData{i, j, st})
 	case "hx":
 		// hook of module i on the event of its first dependency
-		mods[scn.Mods[i].Deps[0]].TriggerEvent("evx", [2]int{i, j})
+		mods[scn.Mods[i].Deps[0]].TriggerEvent("evx", hookData{i, j, st})
+	}
+	return st
+}
+
+type hookData struct {
+	mod, item int
+	st        *launch
+}
+
+// launchFromRoutine starts the items of module i that are launched from inside a lifecycle routine (at = start | prep)
+// and waits (bounded) until the kinds that begin at once have been handed their context.
+func launchFromRoutine(i int, at string) {
+	var ls []*launch
+	for j, it := range scn.Mods[i].Items {
+		if it.At == at {
+			l := startItem(i, j)
+			switch it.Kind {
+			case "w", "sw", "mh", "mm", "ml", "sh", "sm", "sl":
+				ls = append(ls, l)
+			}
+		}
+	}
+	for _, l := range ls {
+		select {
+		case <-l.entered:
+		case <-time.After(150 * time.Millisecond):
+		}
 	}
 }
 
 func waitEntered(i, j int, d time.Duration) {
+	ls := istates[i][j].all()
+	if len(ls) == 0 {
+		return
+	}
 	select {
-	case <-istates[i][j].entered:
+	case <-ls[len(ls)-1].entered:
 	case <-time.After(d):
 	}
 }
@@ -430,7 +616,7 @@ func doWork(cycle int) {
 			continue
 		}
 		for j, it := range md.Items {
-			if it.Cycle == cycle && it.At != "start" {
+			if it.Cycle == cycle && (it.At == "" || it.At == "race") {
 				startItem(i, j)
 			}
 		}
@@ -462,7 +648,7 @@ func doLate() {
 			ran := int32(0)
 			fn := func(ctx context.Context) error {
 				atomic.StoreInt32(&ran, 1)
-				mev(i, "workEnter", fmt.Sprintf("late%d", id), ctx)
+				mev(i, "workEnter", fmt.Sprintf("late%d gen=%s", id, genOf(i, ctx)), ctx)
 				hevCtx(ctx, "h lateRan %d %s", i, k)
 				hev("h workExit %d late%d status=%d", i, id, mods[i].Status())
 				return nil
@@ -534,6 +720,8 @@ func childMain() {
 	mods = make([]*modules.Module, n)
 	istates = make([][]*itemState, n)
 	stopped = make([]int32, n)
+	curGen = make([]int, n)
+	startCalls := make([]int32, n)
 	for i := range scn.Mods {
 		modIdx[modName(i)] = i
 	}
@@ -548,35 +736,39 @@ func childMain() {
 		i, md := i, md
 		istates[i] = make([]*itemState, len(md.Items))
 		for j := range md.Items {
-			istates[i][j] = &itemState{entered: make(chan struct{}), exited: make(chan struct{})}
+			istates[i][j] = &itemState{}
 		}
-		var startFn, stopFn func() error
+		var prepFn, startFn, stopFn func() error
+		if md.PrepFn != "" {
+			prepFn = func() error {
+				mev(i, "fnEnter", "prep", mods[i].Ctx)
+				launchFromRoutine(i, "prep")
+				mev(i, "fnExit", "prep")
+				return nil
+			}
+		}
 		if md.StartFn != "" {
 			startFn = func() error {
+				n := int(atomic.AddInt32(&startCalls[i], 1))
 				mev(i, "fnEnter", "start", mods[i].Ctx)
-				for j, it := range md.Items {
-					if it.At == "start" {
-						startItem(i, j)
+				launchFromRoutine(i, "start")
+				fails := md.StartFn != "ok" && (md.StartFails < 0 || n <= md.StartFails)
+				mev(i, "fnExit", fmt.Sprintf("start fails=%d", boolInt(fails)))
+				if fails {
+					if md.StartFn == "panic" {
+						panic("start panic")
 					}
+					return errors.New("start failed")
 				}
-				mev(i, "fnExit", "start")
 				return nil
 			}
 		}
 		if md.StopFn != "" {
 			stopFn = func() error {
 				mev(i, "fnEnter", "stop", mods[i].Ctx)
-				for j := range md.Items {
-					st := istates[i][j]
-					select {
-					case <-st.exited:
-						continue
-					default:
-					}
-					if c, ok := st.ctx.Load().(*context.Context); ok {
-						hevCtx(*c, "h ctxAtStopfn %d i%d", i, j)
-					}
-				}
+				// the stop routine has been invoked: every piece of work of this module that is executing looks at the
+				// context it was handed
+				observeContexts(i, "stopfn")
 				if md.StopDelay > 0 {
 					time.Sleep(time.Duration(md.StopDelay) * time.Millisecond)
 				}
@@ -594,11 +786,12 @@ func childMain() {
 		for k, d := range md.Deps {
 			deps[k] = modName(d)
 		}
-		mods[i] = modules.Register(modName(i), nil, startFn, stopFn, deps...)
+		mods[i] = modules.Register(modName(i), prepFn, startFn, stopFn, deps...)
 		if mods[i] == nil {
 			fmt.Fprintln(os.Stderr, "child: Register returned nil")
 			os.Exit(4)
 		}
+		regGen(i, mods[i].Ctx, true)
 		if scn.Mgmt && md.Enabled {
 			mods[i].Enable()
 		}
@@ -612,14 +805,12 @@ func childMain() {
 			case int:
 				if v < 0 {
 					hevCtx(ctx, "h lateRan %d ev", i)
+				}
+			case hookData:
+				if v.mod != i {
 					return nil
 				}
-				return body(i, v, ctx)
-			case [2]int:
-				if v[0] != i {
-					return nil
-				}
-				return body(i, v[1], ctx)
+				return body(i, v.item, v.st, ctx)
 			}
 			return nil
 		}
@@ -635,6 +826,22 @@ func childMain() {
 		}
 	}
 	modules.VerifSetSink(sink)
+
+	// work started on a registered module before the module system is started
+	for i, md := range scn.Mods {
+		var ls []*launch
+		for j, it := range md.Items {
+			if it.At == "reg" {
+				ls = append(ls, startItem(i, j))
+			}
+		}
+		for _, l := range ls {
+			select {
+			case <-l.entered:
+			case <-time.After(150 * time.Millisecond):
+			}
+		}
+	}
 
 	for _, op := range scn.Script {
 		f := strings.Fields(op)
@@ -660,6 +867,8 @@ func childMain() {
 			hev("h manageReturn err=%d statuses=%s", boolInt(err != nil), statuses())
 		case "late":
 			doLate()
+		case "obs":
+			observeContexts(-1, "script")
 		case "shutdown":
 			hev("h shutdownCall")
 			err := modules.Shutdown()
@@ -672,13 +881,15 @@ func childMain() {
 	deadline := time.Now().Add(time.Duration(settleMs()) * time.Millisecond)
 	for i, md := range scn.Mods {
 		for j := range md.Items {
-			select {
-			case <-istates[i][j].entered:
+			for _, l := range istates[i][j].all() {
 				select {
-				case <-istates[i][j].exited:
-				case <-time.After(time.Until(deadline)):
+				case <-l.entered:
+					select {
+					case <-l.exited:
+					case <-time.After(time.Until(deadline)):
+					}
+				default:
 				}
-			default:
 			}
 		}
 	}
